@@ -500,9 +500,21 @@ def corpus():
              "exch": {"1": "0.05", "2": "0.05", "3": "0.2", "4": "0.2", "5": "0.2", "6": "0.2"},
              "sols": {"1": A, "2": A, "3": B, "4": B, "5": B, "6": B}}
     # [5] exchanger only in cells 3-6 (cells 1-2 get the automatic 2e-10 mol X): before the repair of find_J the exchange
-    #     species of an interlayer-off pair diffused as pore-water solutes and K, Ca were created (K 0.0020 -> 0.0189 mol)
+    #     species of an interlayer-off pair diffused as pore-water solutes and K, Ca were created (K 0.0020 -> 0.0189 mol);
+    #     fixed by /repo 277d399e: must conserve
     sixth = dict(fifth, exch={"3": "0.2", "4": "0.2", "5": "0.2", "6": "0.2"}, variant="interlayer_partial")
-    return [base, second, third, fourth, fifth, sixth]
+    # [6] known finding `mcd-negative-concentration-guard-adds-mass`: strongly different exchanger amounts in neighbouring
+    #     cells; the explicit interlayer step overshoots and the engine refills the negative totals (announced)
+    C = {"water": "1", "pH": "7", "el": {"K": "5", "Mg": "1", "Cl": "7"}}
+    seventh = dict(fifth, n=8, shifts=1, lengths=["0.002"], mcd={"dw": "1e-9", "por": "0.2", "lim": "0.05"},
+                   interlayer={"por": "0.09", "lim": "0.01", "tort": "10"},
+                   exch={"1": "0.05", "2": "0.05", "3": "0.2", "4": "0.02", "5": "0.5", "6": "0.2", "7": "0.2", "8": "0.2"},
+                   sols={"1": A, "2": A, "3": C, "4": C, "5": B, "6": B, "7": C, "8": B})
+    # which known finding a corpus case is allowed to reproduce (all other corpus cases must pass strictly)
+    third["expect"] = "speciation-residual-accumulates"
+    fourth["expect"] = "implicit-mcd-closed-inventory-drift"
+    seventh["expect"] = "mcd-negative-concentration-guard-adds-mass"
+    return [base, second, third, fourth, fifth, sixth, seventh]
 
 
 HEADS = ["cell", "step", "state", "water", "H", "O", "cb"] + ["m_" + e for e in ELEMENTS] + ["c_" + e for e in ELEMENTS]
